@@ -331,6 +331,10 @@ func runC14(c *Ctx) {
 		c14Provenance(c)
 	})
 	c.Min("C14-R4", 20)
+
+	// "the version is determined solely by height" also for uncles: the verifier (and the miner) hash and verify an
+	// uncle under the version of the uncle's own number (C13-R2), shared here
+	c.Borrow("C13", runC13, map[string]string{"C13-R2": "C14-R3"})
 }
 
 func c14Provenance(c *Ctx) {
